@@ -201,6 +201,69 @@ Proof.
   split; [exact Hr|]. intros rq. rewrite Hr. split; reflexivity.
 Qed.
 
+Lemma run_app_state pl ops1 ops2 s :
+  fst (run pl s (ops1 ++ ops2)) = fst (run pl (fst (run pl s ops1)) ops2).
+Proof.
+  revert s; induction ops1 as [|o ops1 IH]; intros s; cbn [run app fst]; [reflexivity|].
+  destruct (step pl s o) as [s1 r]. specialize (IH s1).
+  destruct (run pl s1 (ops1 ++ ops2)) as [s2 rs]. destruct (run pl s1 ops1) as [s3 rs3]. cbn [fst] in *. exact IH.
+Qed.
+
+(* ------------------------------------------------------------------ a rejected operation changes nothing *)
+Lemma endpoints_per_locality_absent name ls : forall s ok, mget name (st_clusters s) = None ->
+  fst (endpoints_per_locality s name ls ok) = s.
+Proof.
+  induction ls as [|l ls IH]; intros s ok Hn; cbn [endpoints_per_locality]; [reflexivity|].
+  unfold step_update_hosts. rewrite Hn. apply IH. exact Hn.
+Qed.
+
+Lemma endpoints_per_locality_present name ls : forall s ok c, mget name (st_clusters s) = Some c ->
+  snd (endpoints_per_locality s name ls ok) = ok.
+Proof.
+  induction ls as [|l ls IH]; intros s ok c Hc; cbn [endpoints_per_locality]; [reflexivity|].
+  unfold step_update_hosts. rewrite Hc.
+  erewrite IH; [apply andb_true_r|]. cbn [set_clusters st_clusters]. apply mget_mset_same.
+Qed.
+
+(* an operation that returns an error leaves the live objects AND the stored configuration exactly as they were *)
+Theorem failed_step_changes_nothing pl s o : snd (step pl s o) = false -> fst (step pl s o) = s.
+Proof.
+  destruct o as [name c|name domain r|name domain|name lb ch|name lb ch hosts|names|name hosts|name hosts|name addrs|name ls];
+    cbn [step].
+  - unfold step_add_or_update_routers. destruct (mget name (st_routers s)); [destruct (build c)|]; cbn [fst snd]; congruence.
+  - unfold step_route_change. destruct (mget name (st_routers s)) as [w|]; [|reflexivity].
+    destruct (rw_live w) as [l|]; [|reflexivity]. destruct (vhost_index_of_domain (lr_tab l) domain); [|reflexivity].
+    destruct (r_bad r); cbn [fst snd]; congruence.
+  - unfold step_route_change. destruct (mget name (st_routers s)) as [w|]; [|reflexivity].
+    destruct (rw_live w) as [l|]; [|reflexivity]. destruct (vhost_index_of_domain (lr_tab l) domain); cbn [fst snd]; congruence.
+  - cbn [step_update_cluster snd]. discriminate.
+  - cbn [step_update_cluster snd]. discriminate.
+  - destruct (forallb _ names); cbn [fst snd]; congruence.
+  - unfold step_update_hosts. destruct (mget name (st_clusters s)); cbn [fst snd]; congruence.
+  - unfold step_update_hosts. destruct (mget name (st_clusters s)); cbn [fst snd]; congruence.
+  - unfold step_update_hosts. destruct (mget name (st_clusters s)); cbn [fst snd]; congruence.
+  - unfold step_endpoints.
+    assert (forall f, snd (step_update_hosts s name f) = false -> fst (step_update_hosts s name f) = s) as Hu.
+    { intros f. unfold step_update_hosts. destruct (mget name (st_clusters s)); cbn [fst snd]; congruence. }
+    destruct ls as [|l ls]; [apply Hu|]. destruct pl; [|apply Hu].
+    destruct (mget name (st_clusters s)) as [c|] eqn:Ec.
+    + rewrite (endpoints_per_locality_present name (l :: ls) s true c Ec). discriminate.
+    + intros _. now apply endpoints_per_locality_absent.
+Qed.
+
+(* for every history: wherever an operation of the history is rejected, the state before and after it are the same *)
+Theorem failed_update_changes_nothing pl ops1 o ops2 :
+  let s := final pl ops1 in
+  snd (step pl s o) = false ->
+  final pl (ops1 ++ o :: ops2) = final pl (ops1 ++ ops2).
+Proof.
+  cbn zeta. intros Hf. unfold final in *. rewrite !run_app_state. cbn [run].
+  pose proof (failed_step_changes_nothing pl _ o Hf) as Hs.
+  set (s0 := fst (run pl init_state ops1)) in *.
+  destruct (step pl s0 o) as [s1 r]. cbn [fst] in Hs. rewrite Hs.
+  destruct (run pl s0 ops2); reflexivity.
+Qed.
+
 (* ------------------------------------------------------------------ last update wins / removed objects are gone *)
 Lemma run_app pl ops1 ops2 s :
   fst (run pl s (ops1 ++ ops2)) = fst (run pl (fst (run pl s ops1)) ops2).
